@@ -240,6 +240,9 @@ func runC36(c *Ctx) error {
 			c.Violation("C36:bucket-bound-exceeded", fmt.Sprintf("burst %d, %d tokens per %s: %d allowed in %s (bound %.2f)", burst, burst, per, allowed, window, bound), map[string]interface{}{"burst": burst, "per": per.String()})
 		}
 	}
+	if err := c36busy(c); err != nil {
+		return err
+	}
 	return c36dynamic(c)
 }
 
@@ -285,4 +288,68 @@ func c36select(rs c36rules, nets []int, cid string, nodeOf map[int]int, ai int) 
 		}
 	}
 	return "defaultmap", rs.defmap
+}
+
+// a busy address under the running handler (its shrink ticker drops addresses that were idle for ExpireAddr): an
+// address that keeps sending must keep its limiter, so the requests let through stay within burst + rate x window
+func c36busy(c *Ctx) error {
+	trials := 2
+	if c.Thorough() {
+		trials = 12
+	}
+	for i := 0; i < trials; i++ {
+		burst := 1 + c.Intn(3)
+		args := launch.NewRateLimitHandlerArgs()
+		args.ExpireAddr = 300 * time.Millisecond
+		args.ShrinkInterval = 40 * time.Millisecond
+		args.Rules = launch.NewRateLimiterRules()
+		rule := launch.NewRateLimiterRule(time.Hour, burst) // no refill within the run
+		if err := args.Rules.SetDefaultRuleMap(launch.NewRateLimiterRuleMap(&rule, nil)); err != nil {
+			return err
+		}
+		h, err := launch.NewRateLimitHandler(args)
+		if err != nil {
+			return err
+		}
+		if err := h.Start(context.Background()); err != nil {
+			return err
+		}
+		addr := &net.UDPAddr{IP: net.IPv4(10, 1, 2, byte(3+i)), Port: 4321}
+		ctx := context.WithValue(context.Background(), launch.RateLimiterLimiterNameContextKey, "h")
+		allowed, n := 0, 0
+		start := time.Now()
+		last := start
+		var maxGap time.Duration
+		for time.Since(start) < 900*time.Millisecond {
+			passed := false
+			_, _ = h.Func(ctx, addr, func(ctx context.Context) (context.Context, error) {
+				passed = true
+				return ctx, nil
+			})
+			if passed {
+				allowed++
+			}
+			n++
+			now := time.Now()
+			if g := now.Sub(last); g > maxGap {
+				maxGap = g
+			}
+			last = now
+			time.Sleep(time.Duration(5+c.Intn(10)) * time.Millisecond)
+		}
+		window := time.Since(start)
+		_ = h.Stop()
+		c.Eval(n)
+		if maxGap >= args.ExpireAddr/2 { // the harness itself stalled: the address may rightly have been taken for idle
+			c.Count("busy-address", "skipped-stalled")
+			continue
+		}
+		c.Count("busy-address", "judged")
+		bound := float64(burst) + float64(rule.Limit)*window.Seconds() + 1
+		if float64(allowed) > bound {
+			c.Violation("C36:busy-address-loses-its-limiter", fmt.Sprintf("an address sending every 5..15 ms for %s (longest gap %s, ExpireAddr %s, shrink every %s) under the rule %d per hour: %d of %d requests let through (bound %.2f)",
+				window, maxGap, args.ExpireAddr, args.ShrinkInterval, burst, allowed, n, bound), map[string]interface{}{"burst": burst, "expire_addr": args.ExpireAddr.String(), "requests": n})
+		}
+	}
+	return nil
 }
